@@ -18,7 +18,7 @@ Definition bytes := list N.
 (* what os.path.isdir / isfile / os.stat / open(.., "rb") can tell about a path
    (no symbolic links: a normalised absolute path names at most one node) *)
 Inductive node :=
-| NoEnt
+| NoEnt                                   (* os.stat raises OSError: ENOENT, ENOTDIR (path through a file), ENAMETOOLONG, ELOOP, EACCES on a parent *)
 | Dir
 | File (readable : bool) (content : bytes).
 
